@@ -406,6 +406,30 @@ func (e *Engine) verifyFunc(fn *ssa.Function, fc *FuncContract, sweepProps []str
 		return vc
 	}
 	if fc != nil {
+		// ghost updates (performed at exit)
+		for _, g := range fc.Ghost {
+			genv := vc.paramEnv(fn, fc, args, bind, res.st, vc.entry)
+			bindResults(genv, fn.Signature, res.results)
+			func() {
+				defer func() {
+					if r := recover(); r != nil {
+						if se, ok := r.(specErr); ok {
+							panic(unsupported(fmt.Sprintf("ghost assignment %q (%s:%d): %s", g.Src, shortPos(g.File), g.Line, string(se))))
+						}
+						panic(r)
+					}
+				}()
+				x := genv.eval(g.Target.X)
+				bt, isPtr := derefType(x.T)
+				gf := vc.eng.ghostField(bt, g.Target.Name)
+				if !isPtr || gf == nil {
+					genv.fail("target is not a ghost field of a pointer")
+				}
+				gty := genv.resolveTypeIn(gf)
+				val := genv.scalar(genv.eval(g.Value))
+				vc.storeGhost(res.st, asPtr(x.V, bt), bt, g.Target.Name, gty, val)
+			}()
+		}
 		post := vc.paramEnv(fn, fc, args, bind, res.st, vc.entry)
 		bindResults(post, fn.Signature, res.results)
 		for _, c := range fc.Ensures {
